@@ -6,6 +6,7 @@
   pages <sel> <maxpages>       model: get_pages                             -> page;page;...[;E:Err] | -
   spec.pages                   specification on the unfolded tree           -> same form | outside-domain
   spec.select <sel> <maxpages> specSelect on the model's page list          -> same form
+  spec.order                   specOrder (first arrivals over all simple Kids paths) -> ids | - | outside-domain
   render <rot> <box4> <tx> <ty>      model: LTPage.bbox + glyph matrix      -> 10 rationals
   spec.render <rot> <box4> <tx> <ty> specification of the same              -> 10 rationals | outside-domain
   xmlbox <rot> <rotation> <box4>     model: LTPage.bbox under extract_text_to_fp(rotation=) -> 4 rationals
@@ -114,6 +115,15 @@ def step (st : St) (line : String) : St × String :=
     match docTree st.store st.fuel st.catalog with
     | some t => (st, showPages (specPages st.store t))
     | none => (st, "outside-domain")
+  | ["spec.order"] =>
+    match dget st.catalog "Pages" with
+    | some (.atom (.ref r)) =>
+      let w := treeWalk st.store st.fuel st.catalog
+      if w.err.isSome || w.pages.isEmpty then (st, "outside-domain")   -- exception / fallback scan
+      else
+        let ids := specOrder st.store r
+        (st, if ids.isEmpty then "-" else " ".intercalate (ids.map toString))
+    | _ => (st, "outside-domain")
   | ["spec.select", sel, mp] =>
     match parseSel sel, mp.toNat? with
     | some sel, some mp =>
